@@ -590,7 +590,9 @@ ra_addr_is_part_of(RegisterArea *a, RegisterAddress addr)
     if (a->base > addr) {
         return false;
     }
-    if ((a->base + a->size) <= addr) {
+    /* Compare area-relative: the end address (base + size) of an area that
+     * reaches the top of the address space is not representable. */
+    if ((addr - a->base) >= a->size) {
         return false;
     }
     return true;
@@ -605,9 +607,12 @@ ra_reg_is_part_of(RegisterArea *a, RegisterEntry *e)
 static bool
 ra_reg_fits_into(RegisterArea *a, RegisterEntry *e)
 {
-    const RegisterAddress area_end = a->base + a->size;
-    const RegisterAddress entry_end = e->address + rds_size[e->type];
-    return (entry_end <= area_end);
+    /* The entry starts inside of the area (see reg_entry_is_in_memory()), so
+     * there is at least one word left from its offset on. End addresses are
+     * not compared, since they wrap around at the top of the address space. */
+    const RegisterOffset offset = e->address - a->base;
+    const RegisterOffset left = a->size - offset;
+    return (rds_size[e->type] <= left);
 }
 
 static AreaHandle
@@ -944,7 +949,7 @@ register_init(RegisterTable *t) /* NOLINT */
             BIT_CLEAR(t->flags, REG_TF_DURING_INIT);
             return rv;
         }
-        if (current < (previous + t->area[i-1].size)) {
+        if ((current - previous) < t->area[i-1].size) {
             rv.code = REG_INIT_AREA_ADDRESS_OVERLAP;
             rv.pos.area = i;
             BIT_CLEAR(t->flags, REG_TF_DURING_INIT);
